@@ -146,6 +146,22 @@ theorem operator_to_pep440_agrees :
           | none => false)
       | none => false) = true := by decide
 
+/-! ### supported URL schemes (`Scheme::parse`, `Display for Scheme`) — the table the C18 rule oracle carries -/
+
+/-- the schemes `VerbatimUrl` takes: exactly these 25 texts, one per variant, and `Display` is the inverse of `parse` -/
+theorem scheme_tables :
+    Generated.schemeParse.map (·.1) =
+      ["file", "git+git", "git+http", "git+file", "git+ssh", "git+https", "bzr+http", "bzr+https", "bzr+ssh", "bzr+sftp",
+       "bzr+ftp", "bzr+lp", "bzr+file", "hg+file", "hg+http", "hg+https", "hg+ssh", "hg+static-http", "svn+ssh", "svn+http",
+       "svn+https", "svn+svn", "svn+file", "http", "https"] ∧
+    Generated.schemeParse.map (·.2) = Generated.schemeVariants ∧
+    Generated.schemeDisplay = Generated.schemeParse.map (fun r => (r.2, r.1)) := by decide
+
+/-- every scheme is a scheme in the sense of the model's `splitScheme` (`ALPHA (ALPHA | DIGIT | + | - | .)*`) -/
+theorem schemes_are_schemes :
+    Generated.schemeParse.all (fun r => (splitScheme (r.1 ++ "://h/p").toList).map (·.1) == some r.1.toList) = true := by
+  decide
+
 /-! ### archive extensions (`looks_like_archive`) -/
 
 theorem archive_lists :
